@@ -897,6 +897,41 @@ static std::string with_verb(Rng &r, const std::string &e, std::string &tag)
     return std::string(r.coin() ? "sup " : "inf ") + e;
 }
 
+// n-ary free-function calls set_intersection({...}) / set_union({...}) with 3..5 operands, most of them small
+// finite sets over one shared pool of values (so that elements are in some operands and not in others: the
+// element loop of the free set_intersection must AND over *all* finite sets and all other sets), occasionally
+// one interval or Integers / Reals among them
+static std::string gen_nary(Rng &r, std::string &tag)
+{
+    std::vector<std::string> pool;
+    int np = 4 + (int)r.below(4);
+    for (int i = 0; i < np; i++)
+        pool.push_back(r.coin(1, 5) ? qstr(Q(r.range(-5, 13), 2)) : std::to_string(r.range(-2, 7)));
+    bool inter = r.coin(7, 10);
+    int nk = 3 + (int)r.below(3);
+    int extra = r.coin(1, 3) ? (int)r.below(nk) : -1; // position of a non-finite operand
+    std::string e = inter ? "(in" : "(un";
+    for (int j = 0; j < nk; j++) {
+        if (j == extra) {
+            unsigned k = r.below(3);
+            e += k == 0 ? " ints" : (k == 1 ? " reals" : " " + gen_iv(r, false));
+            continue;
+        }
+        std::string f = "(fs";
+        int cnt = 0;
+        for (auto &v : pool)
+            if (r.coin(3, 5)) {
+                f += " " + v;
+                cnt++;
+            }
+        if (!cnt)
+            f += " " + r.pick(pool);
+        e += " " + f + ")";
+    }
+    tag = std::string(inter ? "nary-in" : "nary-un") + std::to_string(nk) + (extra >= 0 ? "x" : "");
+    return e + ")";
+}
+
 void hx_gen(Rng &r, const std::string &tier)
 {
     bool th = tier == "thorough";
@@ -912,6 +947,19 @@ void hx_gen(Rng &r, const std::string &tier)
     emit("eval (bd (un (iv 0 1 c o) (iv 1 2 c c)))", "fixed-N3");
     emit("eval (mu (un (fs -3 6) (iv 4 5 c c)) (fs 1))", "fixed-N10");
     emit("eval (un (mu nats0 (iv 3 oo c o)) nats reals)", "fixed-N11");
+    // n-ary intersections: an element of the first and the last finite set that a middle one lacks
+    emit("eval (in (fs 1 2) (fs 2) (fs 1 2 3))", "fixed-nary");
+    emit("eval (in (fs 1 2 3) (fs 2 3) (fs 1 3 4) (fs 1 2 3 5))", "fixed-nary");
+    emit("eval (in (fs 0 1/2 4) (fs 0 4) (fs 1/2 4 5) (iv 0 5 c c))", "fixed-nary");
+    emit("eval (un (fs 1 2) (fs 2 7) (iv 0 1 c o) (fs 1/2 9))", "fixed-nary");
+    for (int i = 0, m = th ? 2500 : 500; i < m; i++) {
+        std::string tag;
+        std::string e = gen_nary(r, tag);
+        if (r.coin(4, 5))
+            emit("eval " + e, "eval-" + tag);
+        else
+            emit("contains " + e + " " + gen_q(r), "contains-" + tag);
+    }
     int n = th ? 9000 : 1500;
     for (int i = 0; i < n; i++) {
         unsigned k = r.below(100);
